@@ -1055,7 +1055,43 @@ FILE *__wrap_fdopen(int fd, const char *m) { SYS_FAIL(nullptr); FILE *r = fdopen
 FILE *__wrap_tmpfile(void) { SYS_FAIL(nullptr); FILE *r = tmpfile(); on_event(); return r; }
 FILE *__wrap_tmpfile64(void) { SYS_FAIL(nullptr); FILE *r = tmpfile(); on_event(); return r; }
 FILE *__wrap_freopen(const char *p, const char *m, FILE *f) { sim_conflict_point(); FILE *r = freopen(p, m, f); on_event(); return r; }
-int __wrap_fclose(FILE *f) { int e_ = 0; bool fail = sys_call_fails(&e_); int r = fclose(f); on_event(); if (fail) { errno = e_; return EOF; } return r; }
+// memory streams: the buffer belongs to the caller (here: the library) once the stream is closed - a dynamic allocation the
+// library performs through libc. Opening one is an allocation request (can be failed); after fclose the buffer is tracked
+// like any block the library has to release.
+struct MemStream { FILE *f; void **bufp; uintptr_t ra; };
+static std::vector<MemStream> g_memstreams;
+static void *track_result(void *p, size_t n, uintptr_t ra);
+static bool convenience_request(uintptr_t ra);
+FILE *__wrap_open_wmemstream(wchar_t **bufp, size_t *sizep) {
+    uintptr_t ra = (uintptr_t)__builtin_return_address(0);
+    if (convenience_request(ra)) { errno = ENOMEM; return nullptr; }
+    FILE *f = open_wmemstream(bufp, sizep);
+    if (f && t_self && t_self->op) g_memstreams.push_back({f, (void **)bufp, ra});
+    on_event();
+    return f;
+}
+FILE *__wrap_open_memstream(char **bufp, size_t *sizep) {
+    uintptr_t ra = (uintptr_t)__builtin_return_address(0);
+    if (convenience_request(ra)) { errno = ENOMEM; return nullptr; }
+    FILE *f = open_memstream(bufp, sizep);
+    if (f && t_self && t_self->op) g_memstreams.push_back({f, (void **)bufp, ra});
+    on_event();
+    return f;
+}
+int __wrap_fclose(FILE *f) {
+    int e_ = 0;
+    bool fail = sys_call_fails(&e_);
+    int r = fclose(f);
+    for (size_t i = 0; i < g_memstreams.size(); i++)
+        if (g_memstreams[i].f == f) {
+            if (*g_memstreams[i].bufp) track_result(*g_memstreams[i].bufp, 1, g_memstreams[i].ra);
+            g_memstreams.erase(g_memstreams.begin() + i);
+            break;
+        }
+    on_event();
+    if (fail) { errno = e_; return EOF; }
+    return r;
+}
 int __wrap_close(int fd) { int e_ = 0; bool fail = sys_call_fails(&e_); int r = close(fd); on_event(); if (fail) { errno = e_; return -1; } return r; }
 int __wrap_open(const char *p, int flags, ...) {
     mode_t m = 0;
@@ -1337,6 +1373,11 @@ static void finish_digest(Task &t, OpResult &r) {
     h.u64(r.double_free);
     h.u64(((uint64_t)r.heap_overrun << 32) | r.heap_uaf);
     r.digest_noerr = h.h;
+    {
+        Hasher hh = h;
+        hh.u64(settings_fingerprint());
+        r.digest_h = hh.h;
+    }
     h.u64((uint64_t)(int64_t)r.err);
     r.digest_core = h.h;
     h.u64(settings_fingerprint());
@@ -1357,10 +1398,13 @@ static void run_one_op(Task &t, int i, const Op &op) {
             for (const Blob &bl : op.blobs)
                 if (bl.off >= ARENA_LO && bl.off + bl.bytes.size() <= ARENA_HI) memcpy(t.arena.base + bl.off, bl.bytes.data(), bl.bytes.size());
         stack_scrub();
-        errno = 0;
+        // a thread's errno carries over from its previous call (caller-visible per-thread state); a renewed thread
+        // (oracle H) starts every call with errno 0
+        errno = (g_sim.cfg.renew_threads || i == 0) ? 0 : t.errno_carry;
         t.countdown = g_sim.strat->arm(t);
         g_sim.cfg.exec(t, op, r); // sets in_op around the library call
         r.err = errno;
+        t.errno_carry = r.err;
     }
     r.nev = t.ev;
     g_sim.events += t.ev;
@@ -1465,6 +1509,7 @@ void run_pass(const Plan &plan, const PassCfg &cfg, Strategy &strat, PassResult 
     for (auto &a : g_live) { if (a.guarded) guarded_release(a.p); else free(a.p); }
     g_live.clear();
     quarantine_flush(-1);
+    g_memstreams.clear();
     g_last_released_n = 0;
     g_freed.clear();
     g_locks.clear();
